@@ -27,7 +27,8 @@ class ProbeResource(Resource):
     `calendar` attribute) that logs every capacity query and every reservation in order (DESIGN 2.3)."""
 
     def __init__(self, name, ast, shared):
-        super().__init__(name, calast.build(ast))
+        self.kept = []
+        super().__init__(name, calast.build(ast, self.kept))
         self.ast = ast
         self.shared = shared          # dict: 'events' list, 'queries' int, 'budget' int
         self.booked = {}
@@ -158,6 +159,8 @@ def gen_case(rnd, direction=None, n_max=12, klass='wellformed', fixed=None, exte
     decimal = rnd.random() < 0.15
     est_pool, spent_pool = (EST_DEC, SPENT_DEC) if decimal else (EST, SPENT)
     res_names = [None, 'A', 'B', 'C'][:rnd.randint(1, 4)]
+    if rnd.random() < 0.1:
+        res_names.append('None')       # a resource that is *called* 'None' is not the resource of tasks without one
     one_res = rnd.random() < 0.35   # competition: everybody on one resource
     tasks = []
     for i in range(n):
@@ -252,7 +255,11 @@ def gen_case(rnd, direction=None, n_max=12, klass='wellformed', fixed=None, exte
                          'kid': ({'id': 300 + k, 'estimate': rnd.choice([2, 8])} if rnd.random() < 0.25 else None),
                          # the outside predecessor may be a former member: it sat two levels down in a branch of this WBS
                          # that was removed after the link was made
-                         'via_removed_branch': rnd.random() < 0.25})
+                         'via_removed_branch': rnd.random() < 0.25,
+                         'milestone': rnd.random() < 0.2})      # a dated milestone of another project
+            if exts[-1]['milestone']:
+                exts[-1]['end'] = exts[-1]['start']
+                exts[-1]['kid'] = None
     if externals and direction == 'fwd' and rnd.random() < 0.12 and n:
         # a task outside the WBS that waits for members (never visited by the forward pass; part of the link structure)
         exts.append({'id': 150, 'start': None, 'end': None, 'succ': [], 'pred_of_ext': sorted(rnd.sample(range(n), rnd.randint(1, min(2, n)))),
@@ -281,7 +288,8 @@ def gen_case(rnd, direction=None, n_max=12, klass='wellformed', fixed=None, exte
     return {'kind': 'sched', 'tasks': tasks, 'links': links, 'externals': exts, 'resources': resources, 'dir': direction,
             'date': base, 'now': now, 'balance': rnd.random() < 0.7, 'default_estimate': rnd.choice([0, 0, 4, 1.5]),
             'class': klass, 'decimal': decimal, 'assemble': rnd.choice(['attached', 'attached', 'detached-first']),
-            'wbs_attrs': ({'title': rnd.choice(['Plan A', '', None]), 'owner': 7} if rnd.random() < 0.2 else {})}
+            'wbs_attrs': ({'title': rnd.choice(['Plan A', '', None]), 'owner': 7} if rnd.random() < 0.2 else {}),
+            'positional': rnd.random() < 0.3}
 
 
 # ------------------------------------------------------------------------------------------
@@ -322,7 +330,7 @@ def build(case, budget=None, log_queries=False):
     exts = []
     b.other_wbs = None
     for e in case.get('externals') or []:
-        x = Task(e['id'], f"ext{e['id']}", start=e['start'], end=e['end'], estimate=e.get('estimate'))
+        x = Task(e['id'], f"ext{e['id']}", start=e['start'], end=e['end'], estimate=e.get('estimate'), milestone=bool(e.get('milestone')))
         if e.get('via_removed_branch') and e.get('succ') and not e.get('kid'):
             try:
                 top = Task(700 + len(exts) * 3, 'former phase', start=e['start'], end=e['end'])
@@ -336,7 +344,7 @@ def build(case, budget=None, log_queries=False):
                 exts.append(x)
                 continue
             except RuntimeError:
-                x = Task(e['id'], f"ext{e['id']}", start=e['start'], end=e['end'], estimate=e.get('estimate'))
+                x = Task(e['id'], f"ext{e['id']}", start=e['start'], end=e['end'], estimate=e.get('estimate'), milestone=bool(e.get('milestone')))
         if e.get('in_other_wbs'):
             if b.other_wbs is None:
                 b.other_wbs = WBS()
@@ -367,6 +375,9 @@ def build(case, budget=None, log_queries=False):
 def scheduler(case, b):
     cls = ForwardScheduler if case['dir'] == 'fwd' else BackwardScheduler
     kw = {'start': case['date']} if case['dir'] == 'fwd' else {'end': case['date']}
+    if case.get('positional'):
+        # the documented parameter order: (start | end, resources, balance_resources, default_estimate)
+        return cls(case['date'], list(b.probes), case['balance'], case['default_estimate'])
     return cls(resources=list(b.probes), balance_resources=case['balance'], default_estimate=case['default_estimate'], **kw)
 
 
